@@ -324,6 +324,14 @@ def catalogue(big=False):
                                    {"o": ref("S", "ys"), "n": ref("S", "n"), "m": ref("R", "n")})],
                          "TOP", {"xs": val}))
 
+    # 9a'. a splitting stage next to a stage that does not depend on it
+    P.append(program("split_and_indep", [], [S_split("S"), S_echo("B")],
+                     [pipeline("TOP", "int[] xs, int x", "int[] o, int n, int q",
+                               [call("S", binds={"xs": self_("xs")}),
+                                call("B", binds={"x": self_("x")})],
+                               {"o": ref("S", "ys"), "n": ref("S", "n"), "q": ref("B", "y")})],
+                     "TOP", {"xs": [1, 2], "x": 3}))
+
     # 9b. a splitting stage mapped over a typed map / an array only known at run time
     for nm, val, t, mode in (("map_dynkeys_split", {"k1": [1, 2], "k2": [3, 4, 5]}, "map<int[]>", "map"),
                              ("map_dynarr_split", [[1, 2], [3, 4, 5]], "int[][]", "array")):
